@@ -85,7 +85,12 @@ def innermost_adaptix_frame(e):
         fr = frames[last_adaptix + 1]
         return f"raw:{os.path.basename(fr.filename)}.{fr.name}"
     fr = frames[last_adaptix]
-    return ("generated:" if fr.filename.startswith("<adaptix") else "") + fr.name
+    if fr.filename.startswith("<adaptix"):
+        import re  # noqa: PLC0415
+
+        m = re.match(r"(model_loader|model_dumper|convert|coerce)", fr.name)
+        return "generated:" + (m.group(1) if m else fr.name)     # generated closures carry the model's name: keep the generator only
+    return fr.name
 
 
 def escape_key(e):
